@@ -405,11 +405,32 @@ fn wrap_via_run(mut u: Unit) -> Unit {
     u
 }
 
+/// The same through run() with the instruction trace (-i / ENABLE_PRINT_OPCODE) switched on: the trace line is
+/// computed for every instruction, wherever the code lies (the shards' standard output is discarded).
+fn wrap_via_run_with_trace(mut u: Unit) -> Unit {
+    let inner = u.run;
+    u.name = format!("{}/through-run-with-trace", u.name);
+    u.domain = format!("the same cases through the real Cpu::run() with the instruction trace (-i) switched on, so that the trace line is computed for every instruction in every placement (code below the load base included): {}", u.domain);
+    u.run = Box::new(move |ctx: &mut Ctx, chunk: u64| {
+        ctx.via_run = true;
+        *crate::setting::ENABLE_PRINT_OPCODE.write().unwrap() = true;
+        (inner)(ctx, chunk);
+        *crate::setting::ENABLE_PRINT_OPCODE.write().unwrap() = false;
+        ctx.via_run = false;
+    });
+    u
+}
+
 pub fn c15(tier: Tier, seed: u64) -> Prop {
     let mut units = own_units(tier);
     for u in own_units(tier) {
         if matches!(u.name.as_str(), "first-words" | "placements" | "two-step") {
             units.push(wrap_via_run(u));
+        }
+    }
+    for u in own_units(tier) {
+        if u.name == "placements" {
+            units.push(wrap_via_run_with_trace(u));
         }
     }
     // ---- (2) the case streams of the semantic properties, under "no unwind" only
